@@ -132,7 +132,7 @@ func init() {
 		sizes := parseIntsC(c.P("sizes", "1,5000,40000"))
 		var rig *e2eRig
 		sc := &vrt.Scenario{
-			Opt:      vrt.Options{Delay: c.P("delay", "1") == "1", HorizonNs: int64(300 * time.Second)},
+			Opt:      vrt.Options{Delay: c.P("delay", "1") == "1", HorizonNs: int64(300 * time.Second), RandInt: extremeDraws(c.P("draws", "prf"))},
 			Classify: deadlockIs("no-deadlock"),
 			Main: func() {
 				uid := uidOf(0)
@@ -283,11 +283,39 @@ func init() {
 			add(0, "browser", br, "servername", strings.Repeat("a", 60)+".example.org", "unordered", "1")
 			add(0, "browser", br, "sizes", "16132,16133,32265", "numconn", "3")
 		}
+		for _, d := range []string{"min", "max"} {
+			for _, end := range []string{"client-close", "server-close"} {
+				add(0, "browser", "firefox", "method", "aes-256-gcm", "ending", end, "draws", d, "sizes", "1,5000")
+				add(0, "browser", "chrome", "method", "plain", "ending", end, "draws", d, "sizes", "1,5000")
+			}
+		}
 		jobs = append(jobs, vx.Job{Scenario: "wire.udp", Weight: 6})
 		add(map[bool]int{true: 1, false: 2}[q], "browser", "firefox", "sizes", "1", "numconn", "1", "ending", "client-close")
 		add(map[bool]int{true: 1, false: 2}[q], "browser", "firefox", "sizes", "1", "numconn", "1", "ending", "server-close")
 		return jobs
 	})
+}
+
+// extremeDraws pins every small owned random draw (a single random byte, rand.Int below 2^16: padding
+// lengths, menu indices) to its smallest or largest value; "prf" leaves them to the seeded PRF.
+func extremeDraws(mode string) func(n int, tag string) int {
+	switch mode {
+	case "min":
+		return func(n int, tag string) int {
+			if n <= 1<<16 {
+				return 0
+			}
+			return -1
+		}
+	case "max":
+		return func(n int, tag string) int {
+			if n <= 1<<16 {
+				return n - 1
+			}
+			return -1
+		}
+	}
+	return nil
 }
 
 func parseIntsC(s string) []int {
